@@ -416,6 +416,131 @@ def _dither_history_replay(case):
     return core.result([])
 
 
+# ---------------------------------------------------------------- held results, attribute changes, rails
+
+OH_OPS = [["apply", "x", False], ["apply", "y", False], ["apply", "x", True], ["set", 0.5], ["set", 0.97],
+          ["apply_prev", False]]
+
+
+def _object_history(pt, seed):
+    """sequences of calls on ONE Preemphasize / Dither object: apply to signal x or y (same shape,
+    different data), apply to the PREVIOUS RESULT with in_place=False, re-assign the documented public
+    attribute `coeff`.  Every returned array is held to the end.  Oracle per call: a fresh object with
+    the current coeff on the same input (Dither: numpy re-seeded identically before both).  At the end
+    every held result must still be bit-identical to its copy taken on return, results of
+    in_place=False calls must not share memory with each other or with their inputs, and inputs of
+    in_place=False calls must be unchanged."""
+    from pydrobert.speech import pre
+
+    proc, dtype, n, ops = pt
+    cls = {"Preemphasize": pre.Preemphasize, "Dither": pre.Dither}[proc]
+    coeff = 0.97 if proc == "Preemphasize" else 1.0
+    obj = cls(coeff)
+    data = {"x": _values(seed, n, dtype), "y": _values(seed, n, dtype, offset=3)}
+    held = []  # (result array, copy at return, input array, input copy before, in_place)
+    viol = []
+    prev = None
+    case = dict(kind="object_history", proc=proc, dtype=dtype, n=n, ops=ops)
+
+    def bad(what, detail, **more):
+        viol.append(core.violation(dict(proc=proc, what=what, history=True, **more), detail, case))
+
+    for step, op in enumerate(ops):
+        if op[0] == "set":
+            obj.coeff = coeff = op[1]
+            continue
+        if op[0] == "apply_prev":
+            if prev is None:
+                continue
+            inp, in_place = prev, False
+        else:
+            inp, in_place = np.array(data[op[1]], copy=True), op[2]
+        before = inp.copy()
+        np.random.seed(1234 + step)
+        r = computers.call(lambda: obj.apply(inp, in_place=in_place))
+        np.random.seed(1234 + step)
+        ref_r = computers.call(lambda: cls(coeff).apply(before.copy(), in_place=False))
+        if r[0] != "ok" or ref_r[0] != "ok":
+            if r[:2] != ref_r[:2]:
+                bad("exception", "step %d %r: %s vs fresh %s" % (step, op, r[1:], ref_r[1:]))
+            break
+        if not _same(r[1], ref_r[1]):
+            bad("values_vs_fresh", "history %r: call #%d returned %r..., a fresh %s(%r) returns %r..." % (
+                ops, step, r[1][:4].tolist(), proc, coeff, ref_r[1][:4].tolist()),
+                after_coeff_change=any(o[0] == "set" for o in ops[:step]))
+            break
+        if not in_place and not np.array_equal(inp, before):
+            bad("input_modified", "history %r: call #%d (in_place=False) modified its input" % (ops, step),
+                input_was_earlier_result=(op[0] == "apply_prev"))
+            break
+        held.append((r[1], r[1].copy(), inp, in_place))
+        prev = r[1]
+    else:
+        for i, (res, cp, inp, ip) in enumerate(held):
+            if res.tobytes() != cp.tobytes():
+                bad("held_result_changed", "history %r: the array returned by apply #%d was overwritten by a "
+                    "later call on the same object" % (ops, i))
+                break
+            for j, (res2, _, inp2, ip2) in enumerate(held):
+                if j > i and not ip and not ip2 and res.size and np.shares_memory(res, res2):
+                    bad("results_share_memory", "history %r: results of apply #%d and #%d share memory" % (
+                        ops, i, j))
+                    break
+    return core.result(viol, obs=[proc, dtype, len(viol) == 0], sample=case)
+
+
+def _object_history_points(tier):
+    depth = 3 if tier == "quick" else 4
+    pts = []
+    for proc in ("Preemphasize", "Dither"):
+        for dtype in ("float64", "float32", "int16"):
+            for n in (5,) if tier == "quick" else (5, 64):
+                for seq in itertools.product(OH_OPS, repeat=depth):
+                    if not any(o[0].startswith("apply") for o in seq):
+                        continue
+                    pts.append((proc, dtype, n, [list(o) for o in seq]))
+    return pts
+
+
+RAILS = {"int16": [-32768, -32767, -1, 0, 1, 32766, 32767], "int32": [-2 ** 31, -2 ** 31 + 1, 0, 2 ** 31 - 1],
+         "int8": [-128, -127, 0, 126, 127]}
+
+
+def _rails_point(pt):
+    """integer signals AT the rails of their dtype: coeff 0 is the identity everywhere; with noise the
+    result is cast(float64(x) + noise) wherever that sum is representable (elsewhere the property is
+    silent and nothing is demanded)"""
+    from pydrobert.speech import pre
+
+    dtype, s, coeff = pt
+    x = np.array(RAILS[dtype] * 3, dtype=dtype)
+    case = dict(kind="rails", dtype=dtype, numpy_seed=s, coeff=coeff)
+    viol = []
+    np.random.seed(s)
+    with np.errstate(invalid="ignore"):
+        import warnings
+        with warnings.catch_warnings():
+            warnings.simplefilter("ignore", RuntimeWarning)  # out-of-range sums are outside the domain
+            r = computers.call(lambda: pre.Dither(coeff).apply(x.copy()))
+    np.random.seed(s)
+    noise = np.random.normal(0, coeff, x.shape) if coeff else np.zeros(x.shape)
+    if r[0] != "ok":
+        return core.result([core.violation(dict(proc="Dither", what="exception", rails=True, exc=r[1]),
+                                           str(r), case)])
+    total = x.astype(np.float64) + noise
+    info = np.iinfo(dtype)
+    inside = (total > info.min - 1) & (total < info.max + 1)
+    want = np.trunc(total[inside]).astype(dtype)
+    if r[1].dtype != np.dtype(dtype) or not np.array_equal(r[1][inside], want):
+        k = int(np.flatnonzero(r[1][inside] != want)[0]) if r[1].dtype == np.dtype(dtype) else -1
+        viol.append(core.violation(
+            dict(proc="Dither", what="values", rails=True, zero_coeff=(coeff == 0)),
+            "%s samples at the dtype rails, coeff %r: sample %r + noise %r gave %r, trunc(x+noise) = %r" % (
+                dtype, coeff, x[inside][k].item(), float(noise[inside][k]), r[1][inside][k].item(),
+                want[k].item()), case))
+    return core.result(viol, obs=[dtype, coeff == 0, len(viol) == 0], sample=case)
+
+
 # ---------------------------------------------------------------- sub-checks
 
 
@@ -428,7 +553,21 @@ def subchecks(tier, seed):
     long_n = LONG_N if tier == "quick" else LONG_N + [262143, 262144, 262145, 1048575, 1048576, 1048577]
     long_pts = [(d, ip, n) for d in ("float64", "float32", "int16") for ip in (False, True) for n in long_n]
     hist_pts = [[["seed", s], op] for s in (0, 1) for op in DH_OPS]
+    rails = [(d, sd, c) for d in RAILS for sd in range(8 if tier == "quick" else 32) for c in (0.0, 0.25, 1.0)]
     return [
+        core.SubCheck(
+            "object_histories", _object_history_points(tier), lambda p: _object_history(p, seed),
+            "EVERY sequence of 3 (thorough 4) operations on one Preemphasize / Dither object over "
+            "{apply(x), apply(y), apply(x, in_place), apply(previous result), coeff := 0.5, coeff := 0.97} x "
+            "{float64, float32, int16}: each call vs a fresh object with the current coeff; held results "
+            "unchanged at the end; no memory shared between results; inputs of in_place=False calls untouched",
+            axes=dict(ops=OH_OPS, proc=["Preemphasize", "Dither"], dtype=["float64", "float32", "int16"]),
+            replay=lambda c: _object_history((c["proc"], c["dtype"], c["n"], c["ops"]), seed), kind="explore"),
+        core.SubCheck(
+            "dither_rails", rails, _rails_point,
+            "integer signals at the minimum / maximum of their dtype x numpy seed x coeff {0, .25, 1}: "
+            "coeff 0 is the identity, otherwise trunc(x + noise) wherever the sum is representable",
+            replay=lambda c: _rails_point((c["dtype"], c["numpy_seed"], c["coeff"]))),
         core.SubCheck(
             "preemphasize_long", long_pts, lambda p: _pre_long_point(p, seed),
             "Preemphasize(0.97) on signals whose lengths straddle powers of two up to 2^17+1 (thorough "
